@@ -27,7 +27,10 @@ func judgeBudget() time.Duration {
 	if s, err := strconv.Atoi(os.Getenv("C05_JUDGE_TIMEOUT_S")); err == nil && s > 0 {
 		return time.Duration(s) * time.Second
 	}
-	return 10 * time.Second
+	if stats.Tier() == "thorough" {
+		return 5 * time.Second
+	}
+	return 2 * time.Second
 }
 
 func sizeLabel(prefix string, n int, bounds ...int) string {
@@ -52,7 +55,9 @@ type failure struct {
 }
 
 func runAndJudge(t *rapid.T, check string, p program, perKey bool) {
+	t0 := time.Now()
 	res := execute(p)
+	stats.NoteAdd(check, "execute_ms_total(info)", time.Since(t0).Milliseconds())
 	labels := []string{"stack:" + p.Stack, sizeLabel("goroutines", len(p.Gor), 2, 4, 8, 12, 16)}
 	switch {
 	case res.Hung:
@@ -68,7 +73,10 @@ func runAndJudge(t *rapid.T, check string, p program, perKey bool) {
 	ol, nontrivial := overlapLabels(res.Hist)
 	labels = append(labels, ol...)
 	labels = append(labels, sizeLabel("history_ops", len(res.Hist), 10, 20, 40, 70, 200))
+	t1 := time.Now()
 	v := judge(res.Hist, perKey, judgeBudget())
+	stats.NoteAdd(check, "judge_ms_total(info)", time.Since(t1).Milliseconds())
+	labels = append(labels, fmt.Sprintf("filler:%d", p.Filler))
 	labels = append(labels, "judge:"+v.Result)
 	stats.Case(check, nontrivial, p.key(), func() any { return p.render() }, labels...)
 	switch v.Result {
@@ -120,7 +128,10 @@ func rejudgeSaved(t *testing.T, check string) {
 		}
 		v := judge(c.Case.History, c.Case.PerKey, 0)
 		t.Logf("re-judged saved history of %d operations: %s %s", len(c.Case.History), v.Result, v.Problem)
-		if v.Result == "illegal" {
+		// A saved history stays illegal for ever, also after the code was repaired, so by default the verdict is
+		// only logged and the replay's outcome is that of re-executing the program; C05_REJUDGE_STRICT=1 makes the
+		// saved witness itself fail the replay.
+		if v.Result == "illegal" && os.Getenv("C05_REJUDGE_STRICT") == "1" {
 			t.Errorf("saved history is not linearizable: %s", v.Problem)
 		}
 	}
